@@ -266,7 +266,7 @@ def run_history(case, ctx):
                     # the documented accessor used at once as an assignment key
                     before = [[freeze(x) for x in c] for c in t.cols()]
                     try:
-                        t[0, b] = 4242
+                        t[0, b] = 4242 + si
                     except S.AliasError:
                         ctx.count("write_refused_by_alias_tracker")
                     except Exception as e:  # noqa: BLE001
@@ -334,6 +334,11 @@ def run_history(case, ctx):
             raise
         if not isinstance(t, S.Table):
             return
+        # the invariant itself calls dir()/getattr and thereby refreshes cached state: after some steps it is
+        # deliberately not evaluated, so that sequences like rename -> repr -> attribute access run undisturbed
+        last = si == len(case["steps"]) - 1
+        if (k % 3 == 0 and not last) and op in ("view_rename", "repr", "dir", "read", "rename_column"):
+            continue
         if check_accessors(ctx, t, names, f"history/after-{op}", dir_first=flag):
             return
     if saw_view_rename:
